@@ -649,7 +649,21 @@ impl VLog {
 			// Look for VLog files
 			if let Some(file_id) = self.opts.extract_vlog_file_id(&file_name_str) {
 				let file_path = entry.path();
-				let file_size = entry.metadata()?.len();
+				let mut file_size = entry.metadata()?.len();
+
+				// A crash while a new file was being created can leave only part of its
+				// header on disk. Nothing can reference such a file yet (value pointers are
+				// only installed after the file has been synced), so treat it like an empty
+				// file: cut it back to zero length and let the writer lay down a fresh header.
+				if file_size > 0 && file_size < VLogFileHeader::SIZE as u64 {
+					log::warn!(
+						"VLog file {file_name_str} has an incomplete header ({file_size} bytes); resetting it"
+					);
+					let f = OpenOptions::new().write(true).open(&file_path)?;
+					f.set_len(0)?;
+					f.sync_all()?;
+					file_size = 0;
+				}
 
 				// Track the file with maximum ID for active writer setup
 				if max_file_id.is_none_or(|current_max| file_id >= current_max) {
